@@ -416,6 +416,77 @@ pub fn drops_leak_col<const C: usize, const R: usize>() {
     }
 }
 
+// ---------------------------------------------------------------- zero-sized element type (C05, C06, C07)
+/// A zero-sized cell with a live counter: all cells share one address, so code that compares cell
+/// addresses (or derives counts from pointer differences) misbehaves exactly here.
+pub struct Zt;
+static mut ZLIVE: isize = 0;
+impl Drop for Zt {
+    fn drop(&mut self) {
+        unsafe {
+            ZLIVE -= 1;
+        }
+    }
+}
+fn zts(n: usize) -> Vec<Zt> {
+    let mut v = Vec::new();
+    let mut i = 0;
+    while i < n {
+        unsafe {
+            ZLIVE += 1;
+        }
+        v.push(Zt);
+        i += 1;
+    }
+    v
+}
+fn zlive_is<T>(t: &TooDee<T>) {
+    unsafe {
+        assert!(ZLIVE == t.data().len() as isize, "C05 zero-sized cells: constructed minus destroyed equals the cells held");
+    }
+}
+pub fn zst_history<const C: usize, const R: usize>() {
+    {
+        let mut t = TooDee::from_vec(C, R, zts(C * R));
+        let ri: usize = kani::any();
+        kani::assume(ri <= R);
+        t.insert_row(ri, zts(C));
+        assert!(wf(&t) && t.size() == (C, R + 1), "C06 insert_row of zero-sized cells");
+        zlive_is(&t);
+        let ci: usize = kani::any();
+        kani::assume(ci <= C);
+        t.insert_col(ci, zts(R + 1));
+        assert!(wf(&t) && t.size() == (C + 1, R + 1), "C06 insert_col of zero-sized cells");
+        zlive_is(&t);
+        let rc: usize = kani::any();
+        kani::assume(rc <= C);
+        let take: usize = kani::any();
+        kani::assume(take <= R + 1);
+        {
+            let mut d = t.remove_col(rc);
+            assert!(d.len() == R + 1, "C07 remove_col yields one cell per row");
+            let mut i = 0;
+            while i < take {
+                assert!(d.next_back().is_some());
+                i += 1;
+            }
+        }
+        assert!(wf(&t) && t.size() == (C, R + 1), "C07 remove_col of zero-sized cells");
+        zlive_is(&t);
+        let rr: usize = kani::any();
+        kani::assume(rr <= R);
+        {
+            let d = t.remove_row(rr);
+            assert!(d.len() == C, "C07 remove_row yields one cell per column");
+        }
+        assert!(wf(&t) && t.size() == (C, R), "C07 remove_row of zero-sized cells");
+        zlive_is(&t);
+    }
+    unsafe {
+        assert!(ZLIVE == 0, "C05 zero-sized cells: every cell destroyed exactly once");
+    }
+}
+
 // ---------------------------------------------------------------- caller code observing the array mid-operation (C11)
 /// An iterator that, on every call, looks at the array it is being inserted into through a raw
 /// pointer and asserts what an observer of a caught panic at this point would see: the shape
@@ -786,6 +857,9 @@ h!(k_remove_col_forget_1x2, remove_col_forget, 1, 2, 2);
 hl!(k_drops_history_2x2, drops_history, 2, 2);
 h!(k_drops_history_1x2, drops_history, 1, 2);
 h!(k_drops_history_2x1, drops_history, 2, 1);
+
+h!(k_zst_history_2x2, zst_history, 2, 2);
+h!(k_zst_history_1x2, zst_history, 1, 2);
 
 hl!(k_drops_drain_nth_2x2, drops_drain_nth, 2, 2);
 hl!(k_drops_drain_nth_2x3, drops_drain_nth, 2, 3);
